@@ -97,6 +97,46 @@ Section Tie.
     exact (cache_count_gen cs ph cs [] pcs [] (tl ph) 0%Z eq_refl).
   Qed.
 
+  (* ---- what the generated prefix count means: every position below it holds the SAME command in the new plan, in the
+     previous plan and in the previous response (sound: nothing stale is reused), and the position at it, when all three
+     exist, does not (maximal: nothing reusable is thrown away) *)
+  Notation rcmd_ := (rcmd Ev Act Ck H T D Name V).
+  Lemma common_sound (Hspec : forall a b : cmd_, cmd_eqb a b = true <-> a = b) :
+    forall (cs pcs : list cmd_) (hm : list resp_) j, (j < common_ cs pcs hm)%nat ->
+      exists c h, nth_error cs j = Some c /\ nth_error pcs j = Some c /\ nth_error hm j = Some h /\ rcmd_ h = c.
+  Proof.
+    induction cs as [|c cs IH]; intros [|pc pcs] [|h hm] j Hj; cbn [common] in Hj; try lia.
+    destruct (cmd_eqb pc (rcmd_ h) && cmd_eqb c pc) eqn:E; [|lia].
+    apply andb_true_iff in E. destruct E as [E1 E2]. apply Hspec in E1. apply Hspec in E2.
+    destruct j as [|j]; cbn [nth_error].
+    - exists c, h. subst. auto.
+    - apply IH. lia.
+  Qed.
+  Lemma common_maximal (Hspec : forall a b : cmd_, cmd_eqb a b = true <-> a = b) :
+    forall (cs pcs : list cmd_) (hm : list resp_) c pc h,
+      nth_error cs (common_ cs pcs hm) = Some c -> nth_error pcs (common_ cs pcs hm) = Some pc ->
+      nth_error hm (common_ cs pcs hm) = Some h -> ~ (pc = rcmd_ h /\ c = pc).
+  Proof.
+    induction cs as [|c0 cs IH]; intros [|pc0 pcs] [|h0 hm] c pc h; cbn [common]; try (cbn [nth_error]; discriminate).
+    destruct (cmd_eqb pc0 (rcmd_ h0) && cmd_eqb c0 pc0) eqn:E.
+    - cbn [nth_error]. apply IH.
+    - cbn [nth_error]. intros Ec Ep Eh [A B]. injection Ec as <-. injection Ep as <-. injection Eh as <-.
+      assert (E1 : cmd_eqb pc0 (rcmd_ h0) = true) by (apply Hspec; exact A).
+      assert (E2 : cmd_eqb c0 pc0 = true) by (apply Hspec; exact B).
+      rewrite E1, E2 in E. discriminate.
+  Qed.
+  Theorem src_cache_count_spec (Hspec : forall a b : cmd_, cmd_eqb a b = true <-> a = b) (pcs cs : list cmd_) (ph : list resp_) :
+    exists k : nat, src_cache_count Ev Act Ck H T D Name V cmd_eqb pcs cs ph = Some (Z.of_nat k) /\
+      (forall j, (j < k)%nat -> exists c h, nth_error cs j = Some c /\ nth_error pcs j = Some c /\
+                                          nth_error (tl ph) j = Some h /\ rcmd_ h = c) /\
+      (forall c pc h, nth_error cs k = Some c -> nth_error pcs k = Some pc -> nth_error (tl ph) k = Some h ->
+                      ~ (pc = rcmd_ h /\ c = pc)).
+  Proof.
+    exists (common_ cs pcs (tl ph)). split; [apply src_cache_count_is_common|]. split.
+    - apply common_sound. exact Hspec.
+    - apply common_maximal. exact Hspec.
+  Qed.
+
   (* ---- the step-back loop *)
   Lemma step_back_gen (ph : list resp_) : forall k fuel, (k < length ph \/ k = 0)%nat -> (S k <= fuel)%nat ->
     py_while fuel (src_step_back_test Ev Act Ck H T D Name V ph) (fun c => (c - 1)%Z) (Z.of_nat k) = Some (Z.of_nat (stepback_ k ph)).
